@@ -9,6 +9,7 @@ CONSTANTS
   NoWait = FALSE
   MaxWait = 1
   Batch = 0
+  PostPaid = FALSE
   BigUncharged = FALSE
 INVARIANT RateBound
 CHECK_DEADLOCK FALSE
